@@ -26,6 +26,24 @@ def dup_names_model():
     return m
 
 
+def twin_inputs_model():
+    """two graph inputs of one shape feed one ADD, and two equally shaped convolution results feed another: pairs of tensors with the same life
+    time and size, whose relative placement an allocator has to decide by something"""
+    net = nets.Net(0)
+    a = net.act([1, 8, 8, 8], "int8", name="in_a", q=(0.02, 0))
+    b = net.act([1, 8, 8, 8], "int8", name="in_b", q=(0.02, 0))
+    for t in (a, b):
+        net.inputs.append(t)
+        net.open.append(t)
+    y = net.act([1, 8, 8, 8], "int8", q=(0.04, 0))
+    net.op("ADD", [a, b], [y], ("AddOptions", dict(FusedActivationFunction=0)))
+    z = net.act([1, 8, 8, 8], "int8", q=(0.04, 0))
+    net.op("SUB", [a, b], [z], ("SubOptions", dict(FusedActivationFunction=0)))
+    o = net.act([1, 8, 8, 8], "int8", q=(0.08, 0))
+    net.op("ADD", [y, z], [o], ("AddOptions", dict(FusedActivationFunction=0)))
+    return net.model()
+
+
 def lut_chain(scales):
     """QUANTIZE(to scale s) -> TANH for every s: one lookup table per distinct s (value-keyed constants of the process-wide memo)"""
     net = nets.Net(0)
@@ -61,6 +79,7 @@ MODELS = {
     # two third-party custom operators with different custom codes (the operator-code table has two entries of one operator type) next to an NPU part
     # PAD of the batch and the channel dimension: the only rewrite that edits a constant read from the file in place
     "pad_nc": lambda: nets.build(H(([1, 4, 4, 6], "int8"), ["pad_nc"]), 0),
+    "twin_inputs": twin_inputs_model,
     "two_customs": lambda: nets.build(H(([1, 8, 8, 8], "int8"), ["cpu_custom", "cpu_custom_opt", "conv3x3"]), 0),
     # two networks whose first heuristic allocation is not optimal: the hill-climb search (random swaps) really runs
     "hc_search_a": lambda: nets.build(H(([1, 16, 16, 8], "int8"), ["concat", "conv5x5_c24", "conv5x5_c24"]), 0),
@@ -111,8 +130,12 @@ def run_event(ev, workdir):
     open(src, "wb").write(mb)
     os.chdir(d)
     try:
-        if entry in ("main", "main2cfg"):
+        if entry in ("main", "main2cfg", "main_greedy", "main_linear"):
             args = [src, "--output-dir", os.path.join(d, "out"), "--accelerator-config", acc]
+            if entry == "main_greedy":
+                args += ["--tensor-allocator", "Greedy"]
+            if entry == "main_linear":
+                args += ["--tensor-allocator", "LinearAlloc"]
             if entry == "main2cfg":
                 # two configuration files that disagree on one key (documented: --config may be given several times)
                 os.makedirs(os.path.join(d, "cfg", "sub"))
@@ -271,7 +294,8 @@ def run(ctx):
     core.bind_repo()
     quick = ctx.tier == "quick"
     models = list(MODELS)
-    events = [(m, e, a) for m in models for (e, a) in ENTRIES] + [("cache_sensitive", "main2cfg", "ethos-u55-128"), ("conv_logistic", "main2cfg", "ethos-u55-128")]
+    events = [(m, e, a) for m in models for (e, a) in ENTRIES] + [("cache_sensitive", "main2cfg", "ethos-u55-128"), ("conv_logistic", "main2cfg", "ethos-u55-128")] + [
+        (m, e, "ethos-u55-128") for m in ("twin_inputs", "branchy") for e in ("main_greedy", "main_linear")]
     # reference: every event alone
     alone = {}
     for out in pmap(_shard, [[[list(ev)]] for ev in events], chunksize=4):
@@ -345,7 +369,7 @@ def run(ctx):
     # fresh interpreters: hash seeds and heap layouts
     seeds = [(0, 0), (1, 0), (2, 37), (7, 0)] if quick else [(s, j) for s in range(8) for j in (0, 37)]
     fresh_events = [ev for ev in events if ev[1] == "main" and ev[2] == "ethos-u65-256"] + [(m, "convert_bytes", None) for m in ("dup_names", "branchy", "two_customs")] + \
-        [ev for ev in events if ev[1] == "main2cfg"]
+        [ev for ev in events if ev[1] in ("main2cfg", "main_greedy", "main_linear")]
     if quick:
         seeds = seeds + [(3, 0), (8, 0)]
     nfresh = 0
